@@ -92,6 +92,14 @@ def family_sentences(tier):
         yield sentence(f, [(1, 2)])
         yield sentence(f, [], [])
         yield sentence(f, [(2, 1)], [(1, (("mass", 2),))])
+    # (a2) large indices (beyond CPython's small-int cache, around the atom count)
+    big = formula_tokens([("C", 400)])
+    idx = (1, 256, 257, 300, 400, 401)
+    for a in idx:
+        for b in idx:
+            yield sentence(big, [(a, b)])
+        yield sentence(big, [], [(a, (("mass", 257),))])
+        yield sentence(big, [(a, 2)], [(a, (("rad", 300), ("mass", 1000)))])
     # (b) small formulas x all tuple lists x (none | one block)
     for f in small_formulas:
         for ts in tuples:
